@@ -94,6 +94,13 @@ fn real_main() {
                 started: std::time::Instant::now(),
             };
             println!("VERIF_SEED={} property={} tier={} workers={} repo={}", seed, prop, tier.name(), workers, engine::REPO_PATH);
+            let _ = common::BATCH_CTX.set(ctx.clone());
+            if let Some(p) = &replay {
+                let doc = common::read_replay(p);
+                if doc.get("hang").is_some() {
+                    std::process::exit(common::replay_hang(&prop, &doc));
+                }
+            }
             let code = match (prop.as_str(), replay) {
                 ("C03", None) => c03::run(&ctx),
                 ("C03", Some(p)) => c03::replay(&p),
